@@ -4,7 +4,10 @@
 EXTENDS ClientLit, Json
 
 \* AUTHENTICATE: SASL PLAIN, which has an initial response - on the command line, or after an empty challenge
-Cmds == {"LOGIN", "SEARCHBODY", "CREATE", "RENAME", "LIST", "STATUS", "APPEND", "AUTHENTICATE"}
+\* (every command of the client API that carries a caller-supplied string: mailbox names, search strings, header field
+\* values, quota roots, metadata values)
+Cmds == {"LOGIN", "SEARCHBODY", "CREATE", "RENAME", "LIST", "STATUS", "APPEND", "AUTHENTICATE",
+         "SELECT", "DELETE", "SUBSCRIBE", "COPY", "SEARCHHEADER", "SORTTEXT", "SETMETADATA", "SETQUOTA", "GETQUOTAROOT"}
 Classes == {"plain", "space", "quote", "ctl", "bit8", "empty", "long", "longctl", "long8"}  \* long = 4097 octets
 \* 10, 4096, 4097 octets written with one call; split / bigsplit: 10 octets written as 3 + 7, 6016 octets as
 \* 16 + 6000 (the caller looks at errors only when it closes the literal)
